@@ -62,6 +62,53 @@ def run_threads(chk, flavor, nthreads, rounds, hs, label):
     return merged
 
 
+def run_readers(chk, tier, flavor, nthreads, label):
+    """Concurrent readers over files of other producers (TLC-generated re-encodings with unknown members)."""
+    import random
+    from checks.reader_common import make_files, tlc_variants, reader_dumps
+    rng = random.Random(chk.seed * 47 + 20)
+    work = vlib.scratch(label)
+    files = make_files(work, rng, 8 if tier == "quick" else 40)
+    variants = tlc_variants(work, files, "rewrite", 6 if tier == "quick" else 20, chk.seed)
+    vdir = work / "variants"
+    vdir.mkdir()
+    paths = list(files)
+    for f, v, b in variants:
+        p = vdir / f"{f.stem}_v{v}.cdns"
+        p.write_bytes(b)
+        paths.append(p)
+    seq, crashes = reader_dumps(work, paths, flavor="plain", label="c20seq")
+    lst = work / "paths.txt"
+    lst.write_text("\n".join(str(p) for p in paths) + "\n")
+    exe = vlib.build_driver("thr_driver", flavor)
+    prefix = work / "rthr"
+    env = dict(os.environ, VERIF_TMP=str(work), TSAN_OPTIONS="halt_on_error=1:exitcode=66:report_signal_unsafe=0")
+    r = subprocess.run(["timeout", "900", str(exe), "read", str(lst), str(nthreads), "2" if tier == "quick" else "4", str(prefix)],
+                       capture_output=True, text=True, env=env)
+    events = []
+    if r.returncode != 0:
+        what = "ThreadSanitizer: data race" if "ThreadSanitizer" in r.stderr else f"abnormal exit {r.returncode}"
+        loc = " ".join(l.strip()[:140] for l in r.stderr.splitlines() if "#0" in l or "Location" in l or "SUMMARY" in l)[:600]
+        events.append({"e": "S", "file": "-", "thread": -1, "rd_seq": {"fin": "eof"}, "rd_thr": {"fin": what + " " + loc}})
+    for t in range(nthreads):
+        f = Path(f"{prefix}.{t}.ndjson")
+        for line in (f.read_text().splitlines() if f.exists() else []):
+            try:
+                ev = json.loads(line)
+            except Exception:
+                break
+            if ev.get("e") == "RD" and ev["file"] in seq:
+                events.append({"e": "S", "file": ev["file"], "thread": t, "rd_seq": seq[ev["file"]]["rd"], "rd_thr": ev["rd"]})
+    nsh = vlib.NCPU
+    traces = [work / f"c20r.{i}.ndjson" for i in range(nsh)]
+    for i, tf in enumerate(traces):
+        tf.write_text("\n".join(json.dumps(e) for e in events[i::nsh]) + "\n" + '{"e":"END"}\n')
+    merged = vlib.validate_traces("TraceReader", traces, constants={}, timeout=2400, label=label + "tv", xmx="4g")
+    chk.add_traces(merged, relevant={"C20"})
+    shutil.rmtree(work, ignore_errors=True)
+    return merged
+
+
 def run(tier):
     chk = Check("C20", tier, "exploration")
     chk.rule = ("model: every interleaving of N threads, each appending its own items, with per-call scratch (design) and "
@@ -83,6 +130,10 @@ def run(tier):
         m = run_threads(chk, "plain", nt, 1 if tier == "quick" else 2, hs, f"c20p{nt}")
         execs += m["execs"]
     m = run_threads(chk, "tsan", 8 if tier == "quick" else 16, 1, hs[: (32 if tier == "quick" else 200)], "c20t")
+    execs += m["execs"]
+    m = run_readers(chk, tier, "plain", 8 if tier == "quick" else 16, "c20rp")
+    execs += m["execs"]
+    m = run_readers(chk, tier, "tsan", 6 if tier == "quick" else 12, "c20rt")
     execs += m["execs"]
     chk.samples.append({"threads": [2, 16], "history_ops": [o["op"] for o in hs[0]["ops"]][:20]})
     chk.distinct = execs
